@@ -101,7 +101,24 @@ func (c *Ctx) identityKeys() []crypto.PublicKey {
 	if err != nil {
 		panic(err)
 	}
-	return []crypto.PublicKey{crypto.IdentityBLSPublicKey(), agg, dec, aggsk.PublicKey(), rmAll, rmSelf, decc}
+	// the aggregated zero key again, from inputs whose public keys were already computed (a public key assembled from
+	// the inputs' cached keys must carry the identity mark too), in three touch patterns
+	var touched []crypto.PublicKey
+	for pat := 1; pat < 4; pat++ {
+		x, y := skFromInt(a), skFromInt(na)
+		if pat&1 != 0 {
+			_ = x.PublicKey()
+		}
+		if pat&2 != 0 {
+			_, _ = crypto.BLSGeneratePOP(y)
+		}
+		z, err := crypto.AggregateBLSPrivateKeys([]crypto.PrivateKey{x, y})
+		if err != nil {
+			panic(err)
+		}
+		touched = append(touched, z.PublicKey())
+	}
+	return append([]crypto.PublicKey{crypto.IdentityBLSPublicKey(), agg, dec, aggsk.PublicKey(), rmAll, rmSelf, decc}, touched...)
 }
 
 // verifyAns: the verdict of Verify; the same call is made three times in a row on one OS thread and the three verdicts
